@@ -14,8 +14,8 @@ import optcommon as oc
 import predicate.optimizer.predicate_optimizer as PO
 from predicate import can_optimize, optimize, to_dot, to_json
 from predicate import predicate as PP
-from predicate.generator.generate_false import generate_false
-from predicate.generator.generate_true import generate_true
+from predicate import generate_false         # the PUBLIC entry point (what users import)
+from predicate import generate_true          # the PUBLIC entry point (what users import)
 from predicate.implies import implies
 from predicate.named_predicate import NamedPredicate
 from predicate.negate import negate
@@ -280,9 +280,81 @@ def _lazy_probe(fn_name, fn):
     return call(P, ["a", ["b"]]), call(P, ["a", [1]])
 
 
-def lazy_search(fails):
-    want = _lazy_probe("none", None)
+def _ref_probe(kind, fn):
+    """branch = is_list_p & all_p(<root_p|this_p>); whole = is_str_p | branch; the analysis function sees `branch` first"""
+    from predicate.standard_predicates import is_int_p, is_list_p, is_str_p, root_p, this_p
+    ref = root_p if kind == "root_p" else this_p
+    if kind == "root_p":
+        branch = is_list_p & all_p(ref)
+        whole = is_str_p | branch
+        target = whole
+    else:
+        whole = is_str_p | (is_list_p & all_p(ref))
+        branch = whole | is_int_p           # a LARGER predicate containing `whole`, analysed before `whole` is first called
+        target = whole
+    if fn is not None:
+        try:
+            fn(branch)
+        except Exception:  # noqa: BLE001
+            pass
+    return call(target, ["foo"]), call(target, ["foo", [1]]), call(target, [13])
+
+
+def no_raise_search(fails):
+    """optimize() must return a predicate for mutually comparable constants of mixed numeric types (int / float / bool)"""
+    from predicate.standard_predicates import gt_p, lt_p
+    consts = [0, 1, 2.5, True, 3, 0.5, False, 2]
+    lows = [f(c) for c in consts for f in (ge_p, gt_p)]
+    highs = [f(c) for c in consts for f in (le_p, lt_p)]
     n = 0
+    for a in lows + [eq_p(1), eq_p(1.0), in_p(1, 2.5), not_in_p(True, 3.5)]:
+        for b in highs + [eq_p(True), ne_p(0.5), in_p(0, 1.5)]:
+            for op in ("and", "or", "xor"):
+                for t in (gen.mk(op, a, b), gen.mk(op, b, a), gen.mk("not", gen.mk(op, a, b))):
+                    n += 1
+                    try:
+                        optimize(t)
+                    except Exception as e:  # noqa: BLE001
+                        fails.append({"kind": "optimize raised", "p": repr(t), "error": f"{type(e).__name__}: {e}",
+                                      "note": "constants are mutually comparable numbers (int / float / bool)"})
+                        return n
+    return n
+
+
+def compound_no_raise(fails):
+    """optimize() on connectives whose BOTH operands are connectives of the same / another kind (operand-swap rules must be one-shot)"""
+    from predicate.standard_predicates import is_float_p, is_int_p, is_none_p, is_str_p
+    leaves = [is_int_p, is_str_p, is_none_p, is_float_p, ge_p(1), le_p(5), eq_p(0), NamedPredicate(name="a"), NamedPredicate(name="b")]
+    n = 0
+    sys.setrecursionlimit(3000)
+    for i1, o1 in enumerate(("and", "or", "xor")):
+        for o2 in ("and", "or", "xor"):
+            for top in ("and", "or", "xor"):
+                l_ = gen.mk(o1, leaves[i1], leaves[i1 + 1])
+                r_ = gen.mk(o2, leaves[i1 + 2], leaves[i1 + 3])
+                for t in (gen.mk(top, l_, r_), gen.mk("not", gen.mk(top, l_, r_)), gen.mk(top, gen.mk("not", l_), r_), gen.mk("or", leaves[7], gen.mk(top, l_, r_))):
+                    n += 1
+                    try:
+                        optimize(t)
+                    except Exception as e:  # noqa: BLE001
+                        fails.append({"kind": "optimize raised", "p": repr(t), "p_structure": oc.skey(t), "error": f"{type(e).__name__}: {str(e)[:80]}"})
+                        return n
+    return n
+
+
+def lazy_search(fails):
+    n = compound_no_raise(fails)
+    for kind in ("root_p", "this_p"):
+        want = _ref_probe(kind, None)
+        for name, fn in analysis_calls(ge_p(1)).items():
+            n += 1
+            got = _ref_probe(kind, fn)
+            if got != want:
+                fails.append({"kind": "argument answers differently after the call", "function": name,
+                              "p": ("branch = is_list_p & all_p(root_p); whole = is_str_p | branch: `branch` analysed, then `whole` called" if kind == "root_p" else
+                                    "P = is_str_p | (is_list_p & all_p(this_p)); Q = P | is_int_p: `Q` analysed before `P` is first called"),
+                              "answers_on_['foo'],['foo',[1]],[13]": repr(got), "answers_without_the_analysis_call": repr(want)})
+    want = _lazy_probe("none", None)
     for name, fn in analysis_calls(ge_p(1)).items():
         n += 1
         got = _lazy_probe(name, fn)
@@ -296,7 +368,7 @@ def lazy_search(fails):
 def search(payload):
     fails = []
     rows = count_search(payload, fails)
-    n = mutation_search(payload, fails) + lazy_search(fails)
+    n = mutation_search(payload, fails) + lazy_search(fails) + no_raise_search(fails)
     worst = max(rows, key=lambda r: r["optimize_calls"] / max(1, r["nodes"]) ** 2)
     return {"evaluations": n + len(rows), "failures": fails[:5], "known_hits": [],
             "call_counts": rows, "worst_ratio_calls_over_n2": round(worst["optimize_calls"] / worst["nodes"] ** 2, 4),
